@@ -5,14 +5,16 @@ from .wrap import CanCustomize
 
 class BoundCallable(CanCustomize, object):
     def __init__(self, executor, fn):
-        self.__executor = executor
-        self.__fn = fn
-
         try:
             update_wrapper(self, fn)
         except AttributeError:
             # Update wrapper if we can, but not fatal if we can't
             pass
+
+        # Set after update_wrapper, which copies fn's attributes onto self:
+        # if fn is itself a BoundCallable, its attributes must not replace ours.
+        self.__executor = executor
+        self.__fn = fn
 
         # Executors created by chaining with_* calls on this callable inherit
         # the name of the bound executor, as if chained on the executor itself.
